@@ -722,7 +722,9 @@ impl<'a> Run<'a> {
     let oneshot_after = self.s.flavour == Flavour::Oneshot && self.m.one_taken;
     if !self.m.q.is_empty() {
       if disc {
-        fail!("C04", sig(self.s, a, form, "disconnected_before_drained"), "reported Disconnected with {} value(s) still buffered", self.m.q.len());
+        // also C01 ("... provided some receiver keeps receiving until it observes Disconnected")
+        let dp = if crate::current_property() == "C01" { "C01" } else { "C04" };
+        fail!(dp, sig(self.s, a, form, "disconnected_before_drained"), "reported Disconnected with {} value(s) still buffered", self.m.q.len());
       }
       fail!("C01", sig(self.s, a, form, "empty_but_buffered"), "reported Empty with {} value(s) buffered (front #{})", self.m.q.len(), self.m.q[0]);
     }
